@@ -43,6 +43,12 @@ type Table struct {
 	Routes []rm.Route
 	Names  []string // every parameter name of the table (without the * pseudo name) + one unused name
 	Cur    *Obs
+
+	// an internal forward: the handler of the next request dispatches Forward on the same Mux (a nested ServeHTTP
+	// call, as a handler does that rewrites and re-dispatches) before it looks at its own Store
+	Forward *http.Request
+	Inner   Obs
+	InnerP  any
 }
 
 type nullWriter struct{ h http.Header }
@@ -59,6 +65,16 @@ func (w *nullWriter) WriteHeader(int)             {}
 func (t *Table) record(idx int) httpd.HandlerFunc {
 	return func(s *httpd.Store) {
 		o := t.Cur
+		if fw := t.Forward; fw != nil {
+			t.Forward = nil
+			t.Cur = &Obs{Route: -2}
+			func() {
+				defer func() { t.InnerP = recover() }()
+				t.Mux.ServeHTTP(&nullWriter{}, fw)
+			}()
+			t.Inner = *t.Cur
+			t.Cur = o
+		}
 		o.Calls++
 		o.Route = idx
 		if s.I != nil {
@@ -152,6 +168,29 @@ func (t *Table) ServeRaw(method, path string, rawMask uint64) (o Obs, panicked a
 		t.Mux.ServeHTTP(&nullWriter{}, req)
 	}()
 	return *t.Cur, panicked
+}
+
+func newRequest(method, path string, rawMask uint64) *http.Request {
+	u := &url.URL{Path: path, RawPath: RawPathFor(path, rawMask)}
+	reqURI := path
+	if u.RawPath != "" {
+		reqURI = u.RawPath
+	}
+	return &http.Request{Method: method, URL: u, Header: http.Header{}, RequestURI: reqURI, RemoteAddr: "192.0.2.1:1234"}
+}
+
+// ServeForwarding serves the outer request; its handler first dispatches the inner request on the same Mux and only
+// then observes its own Store. Both observations are returned.
+func (t *Table) ServeForwarding(method, path, innerMethod, innerPath string) (outer, inner Obs, outerPanic, innerPanic any) {
+	t.Cur = &Obs{Route: -2}
+	t.Inner, t.InnerP = Obs{Route: -2}, nil
+	t.Forward = newRequest(innerMethod, innerPath, 0)
+	func() {
+		defer func() { outerPanic = recover() }()
+		t.Mux.ServeHTTP(&nullWriter{}, newRequest(method, path, 0))
+	}()
+	t.Forward = nil
+	return *t.Cur, t.Inner, outerPanic, t.InnerP
 }
 
 // Expect renders the model's expectation as an Obs.
